@@ -90,6 +90,37 @@ CLAIMS: dict[str, tuple[str, str, str, str]] = {
         'use (constant-collection none tests, join/split, quote/unquote); an unrecognised formatter '
         'is treated as custom and only its list/None obligations are checked.',
         'DESIGN.md section 4, C07'),
+    'C10': (
+        'mutation inventory with guard stacks + location-gating rule + single-implementation rule',
+        'Every statement that can change the atom tree between load_fragment() and encode() in '
+        'generate_init_segment is enumerated with its stack of enclosing tests and loops and '
+        'compared with the two edits the property allows (append of `drm.moov(default_kid)` for an '
+        'encrypted track, per system of the DrmContext, under `drm.moov is not None`; removal of '
+        'mehd under mode == live): any other edit call, attribute store or weaker guard is a '
+        'violation for every request at once. Both init routes must reach that one function and '
+        'encode nothing themselves; each DRM system may hand out a moov/cenc/pro generator only '
+        'under the membership test of the same-named DrmLocation (Marlin: none); cenc and moov '
+        'share one generator; the fragment is the stored segment 0 loaded read-write and the key '
+        'set comes from the representation.',
+        'Not decided: byte identity of untouched boxes (follows from C04 as far as reader/writer '
+        'agreement goes), pssh payload contents. Patterns are matched on resolved names (the '
+        'receiver of load_fragment, the loop variable of the DrmContext), not on line positions.',
+        'DESIGN.md section 4, C10'),
+    'C11': (
+        'location-gating rule + template-AST facts + symbolic evaluation of the GUID permutation',
+        'Structural half of C11: per DRM system the cenc/moov/pro generators are enabled only '
+        'under the same-named DrmLocation test (PlayReady cenc additionally version > 1.0); the '
+        'manifest and the init segment construct DrmContext with the same roles and the key-set '
+        'sources are compared; in the templates every pssh/pro payload sits under the flag that '
+        'enables it, inside the right element, base64-rendered, default_KID comes from '
+        'adp.default_kid|uuid and each per-system include is guarded by that system; the ClearKey '
+        'handler only appends entries inside the iteration over the key lookup, pairs KID and KEY '
+        'of one stored key, covers its decode exceptions and uses inverse base64url mappings; '
+        'hex_to_le_guid is evaluated symbolically over 32 hex positions and must equal the RFC '
+        '4122 bytes_le permutation.',
+        'Not decided (cryptographic value equality, out of reach of static analysis): key-seed '
+        'derivation equals Microsoft\'s algorithm, AES checksum values, PRO parse-back.',
+        'DESIGN.md section 4, C11'),
     'C13': (
         'path-sensitive zone-domain abstract interpretation of get_http_range + call-site rules',
         'For every Range header value at once: on each exit path of get_http_range the zone '
